@@ -167,6 +167,29 @@ theorem format_inverts_literal (y : Int) (mo d h mi s : Nat) (hv : validCivil y 
   have e3 : (h * 3600 + mi * 60 + s) % 60 = s := by omega
   rw [e1, e2, e3]
 
+/-- **the printed `modified` text is the entry's own time**: for every time `t` (seconds, local) the six
+    fields that `format_datetime` prints form a valid civil date and clock time, and the second they denote —
+    what a full-precision literal with those fields means — is `t` itself -/
+theorem printed_fields_denote_entry_time (t : Int) :
+    validCivil (civilFromDays (t / 86400)).1 (civilFromDays (t / 86400)).2.1 (civilFromDays (t / 86400)).2.2 = true ∧
+    (t % 86400).toNat / 3600 < 24 ∧ (t % 86400).toNat / 60 % 60 < 60 ∧ (t % 86400).toNat % 60 < 60 ∧
+    secsOf (civilFromDays (t / 86400)).1 (civilFromDays (t / 86400)).2.1 (civilFromDays (t / 86400)).2.2
+      ((t % 86400).toNat / 3600) ((t % 86400).toNat / 60 % 60) ((t % 86400).toNat % 60) = t ∧
+    formatDatetime t =
+      pad4 (civilFromDays (t / 86400)).1.toNat ++ ['-'] ++ pad2 (civilFromDays (t / 86400)).2.1 ++ ['-'] ++
+        pad2 (civilFromDays (t / 86400)).2.2 ++ [' '] ++ pad2 ((t % 86400).toNat / 3600) ++ [':'] ++
+        pad2 ((t % 86400).toNat / 60 % 60) ++ [':'] ++ pad2 ((t % 86400).toNat % 60) := by
+  obtain ⟨hv, hd⟩ := CivilL.civil_of_days (t / 86400)
+  refine ⟨hv, by omega, by omega, by omega, ?_, rfl⟩
+  unfold secsOf
+  rw [hd]
+  generalize hs : (t % 86400).toNat = sod
+  have h1 : (sod : Int) = t % 86400 := by omega
+  have h2 : sod / 3600 * 3600 + sod / 60 % 60 * 60 + sod % 60 = sod := by omega
+  rw [h2]
+  simp only [Int.ofNat_eq_natCast]
+  omega
+
 /-- the printed date of a day number that a valid date denotes is that date -/
 theorem format_date_inverts (y : Int) (mo d : Nat) (hv : validCivil y mo d = true) :
     formatDate (daysFromCivil y mo d) = pad4 y.toNat ++ ['-'] ++ pad2 mo ++ ['-'] ++ pad2 d := by
